@@ -2,6 +2,7 @@
 //! properties: C14
 //! note: which key peels which layer (onion_utils.rs decode_next_payment_hop): the shared secret of the outer onion is the ECDH of the hop's ephemeral key with our node key tweaked by the blinding point that came with the update_add_htlc; the shared secret of the inner (trampoline) onion is the ECDH of the trampoline packet's ephemeral key with our node key tweaked by the path key carried in the OUTER payload (current_path_key), and that same path key is what the inner payload is parsed against. A hop that derives either secret from the other layer's blinding point fails the HMAC test on an honestly built onion and never obtains its instructions.
 //! trusted: R15 (deep slices of decode_next_payment_hop): the statements that derive the two shared secrets and the two decode_next_hop calls, verbatim; the match on the decoded payloads after them is dropped and not claimed
+//! trusted: R15 (deep slice): decode_next_payment_hop: the `match decoded_trampoline_hop { .. }` verbatim as a function of the decode result, the outer payload, the two secrets and the packet's ephemeral key; enum Hop (with its accessors shared_secret / trampoline_shared_secret, extracted whole), OnionDecodeErr and InboundTrampolinePayload are extracted over opaque payload skeletons
 //! trusted: R5: NS is instantiated with an opaque signer whose ecdh(recipient, key, tweak) returns the uninterpreted ecdh_spec of its arguments and succeeds (as the source's unwrap assumes); decode_next_hop is replaced by a recorder of its arguments (decode_next_hop itself: u14b)
 //! trusted: R8: `b"blinded_node_id"` is the external_body wrapper blinded_node_id_tag() (Verus gives byte-string literals no value); closure annotation: `|bp|` is written `|bp: PublicKey| -> (t: Scalar) ensures t == path_key_tweak(recipient, bp)` (Verus treats an exec closure without ensures as opaque; the closure body is verified against that clause)
 //! trusted: env: HmacEngine is a stub that records key and the concatenation of its inputs in ghost fields; Hmac::from_engine(..).to_byte_array() is the uninterpreted hmac_sha256_tag(key, data); Scalar::from_be_bytes succeeds on an HMAC output (as the source's unwrap assumes)
@@ -26,7 +27,7 @@ pub struct Scalar { pub v: [u8; 32] }
 #[derive(Debug)]
 pub struct OutOfRange {}
 impl Scalar { #[verifier::external_body] pub fn from_be_bytes(b: [u8; 32]) -> (r: Result<Scalar, OutOfRange>) ensures r matches Ok(s) && s.v == b { unimplemented!() } }
-pub struct SharedSecret { pub v: [u8; 32] }
+#[derive(Clone, Copy)] pub struct SharedSecret { pub v: [u8; 32] }
 impl SharedSecret {
     #[verifier::external_body] pub fn secret_bytes(&self) -> (r: [u8; 32]) ensures r == self.v { unimplemented!() }
     #[verifier::external_body] pub fn from_bytes(b: [u8; 32]) -> (r: SharedSecret) ensures r.v == b { unimplemented!() }
@@ -120,5 +121,76 @@ pub struct DecodeCall { pub secret: [u8; 32], pub data: Seq<u8>, pub hmac: [u8; 
 //@with
     (blinding_point, node_signer)
 //@end
+
+// ---- what is reported after the trampoline layer was peeled: which of the two secrets goes where ----
+pub mod peeled {
+use vstd::prelude::*;
+use super::{SharedSecret, PublicKey, InboundTrampolineEntrypointPayload};
+//@const lightning/src/ln/onion_utils.rs ONION_DATA_LEN
+pub struct InboundOnionForwardPayload {} pub struct InboundOnionBlindedForwardPayload {} pub struct InboundOnionDummyPayload {} pub struct InboundOnionReceivePayload { pub id: u64 }
+pub struct InboundOnionBlindedReceivePayload { pub intro_node_blinding_point: Option<PublicKey>, pub id: u64 }
+pub struct InboundTrampolineForwardPayload { pub id: u64 }
+pub struct InboundTrampolineBlindedForwardPayload { pub intro_node_blinding_point: Option<PublicKey>, pub id: u64 }
+pub enum LocalHTLCFailureReason { InvalidOnionPayload, InvalidOnionBlinding, InvalidTrampolinePayload, Other }
+//@extract lightning/src/ln/msgs.rs :: mod fuzzy_internal_msgs :: enum InboundTrampolinePayload
+//@end
+//@extract lightning/src/ln/onion_utils.rs :: enum Hop
+//@strip msgs
+//@end
+//@extract lightning/src/ln/onion_utils.rs :: enum OnionDecodeErr
+//@end
+// the secret of the outer layer / of the trampoline layer a peeled hop reports (failures are encrypted back under them, attribution uses them)
+pub open spec fn outer_secret_of(h: Hop) -> SharedSecret {
+    match h {
+        Hop::Forward { shared_secret, .. } => shared_secret, Hop::BlindedForward { shared_secret, .. } => shared_secret, Hop::Dummy { shared_secret, .. } => shared_secret,
+        Hop::Receive { shared_secret, .. } => shared_secret, Hop::BlindedReceive { shared_secret, .. } => shared_secret,
+        Hop::TrampolineForward { outer_shared_secret, .. } => outer_shared_secret, Hop::TrampolineBlindedForward { outer_shared_secret, .. } => outer_shared_secret,
+        Hop::TrampolineReceive { outer_shared_secret, .. } => outer_shared_secret, Hop::TrampolineBlindedReceive { outer_shared_secret, .. } => outer_shared_secret,
+    }
+}
+pub open spec fn trampoline_secret_of(h: Hop) -> Option<SharedSecret> {
+    match h {
+        Hop::TrampolineForward { trampoline_shared_secret, .. } => Some(trampoline_shared_secret), Hop::TrampolineBlindedForward { trampoline_shared_secret, .. } => Some(trampoline_shared_secret),
+        Hop::TrampolineReceive { trampoline_shared_secret, .. } => Some(trampoline_shared_secret), Hop::TrampolineBlindedReceive { trampoline_shared_secret, .. } => Some(trampoline_shared_secret),
+        _ => None,
+    }
+}
+impl Hop {
+//@extract lightning/src/ln/onion_utils.rs :: impl Hop :: fn shared_secret
+//@ret r
+//@ensures A
+    *r == outer_secret_of(*self)
+//@end
+//@extract lightning/src/ln/onion_utils.rs :: impl Hop :: fn trampoline_shared_secret
+//@r7
+//@ret r
+//@ensures A
+    r is Some == trampoline_secret_of(*self) is Some, r is Some ==> *r->Some_0 == trampoline_secret_of(*self)->Some_0
+//@end
+}
+//@extract lightning/src/ln/onion_utils.rs :: fn decode_next_payment_hop
+//@strip msgs
+//@slice R15
+    match decoded_trampoline_hop { $arms:any } }, _ => { if blinding_point.is_some() {
+//@with
+    fn report_the_peeled_trampoline_hop(decoded_trampoline_hop: Result<(InboundTrampolinePayload, Option<([u8; 32], Vec<u8>)>), OnionDecodeErr>, hop_data: InboundTrampolineEntrypointPayload,
+        shared_secret: SharedSecret, trampoline_shared_secret: [u8; 32], incoming_trampoline_public_key: PublicKey) -> Result<Hop, OnionDecodeErr> {
+        match decoded_trampoline_hop { $arms } }
+//@ret r
+//@ensures P C14 whatever-is-reported-after-peeling-the-trampoline-layer-names-the-outer-secret-as-the-outer-one-and-the-trampoline-secret-as-the-trampoline-one
+    r matches Ok(h) ==> outer_secret_of(h) == shared_secret && trampoline_secret_of(h) == Some(SharedSecret { v: trampoline_shared_secret }),
+    r is Err && r->Err_0 is Relay && !(decoded_trampoline_hop is Err)
+        ==> r->Err_0->Relay_shared_secret == shared_secret && r->Err_0->Relay_trampoline_shared_secret == Some(SharedSecret { v: trampoline_shared_secret }),
+    decoded_trampoline_hop matches Err(e) ==> r == Err::<Hop, OnionDecodeErr>(e),
+//@mutant failure_of_a_misplaced_trampoline_forward_reported_under_the_outer_secret_twice
+    reason: LocalHTLCFailureReason::InvalidTrampolinePayload, shared_secret, trampoline_shared_secret: Some(SharedSecret::from_bytes( trampoline_shared_secret, )), }) }, Ok((msgs::InboundTrampolinePayload::Receive(_), Some(_)))
+//@with
+    reason: LocalHTLCFailureReason::InvalidTrampolinePayload, shared_secret, trampoline_shared_secret: Some(shared_secret), }) }, Ok((msgs::InboundTrampolinePayload::Receive(_), Some(_)))
+//@mutant trampoline_receive_reports_the_outer_secret_as_the_trampoline_one
+    Ok(Hop::TrampolineReceive { outer_hop_data: hop_data, outer_shared_secret: shared_secret, trampoline_hop_data, trampoline_shared_secret: SharedSecret::from_bytes( trampoline_shared_secret, ), })
+//@with
+    Ok(Hop::TrampolineReceive { outer_hop_data: hop_data, outer_shared_secret: shared_secret, trampoline_hop_data, trampoline_shared_secret: shared_secret, })
+//@end
+}
 }
 fn main() {}
